@@ -28,7 +28,7 @@ def showType (t : Nat) : String := if t < 2 ^ 31 then toString t else toString (
 
 /-- `GetData()` of proto2 bytes: nil when absent -/
 def showNode (n : FSNode) : String :=
-  s!"type={showType n.type} data={showData n.data} bs=[{",".intercalate (n.blocksizes.map toString)}] " ++
+  s!"type={showType n.type} dir={decide (n.type = 1 ∨ n.type = 5)} data={showData n.data} bs=[{",".intercalate (n.blocksizes.map toString)}] " ++
   s!"ht={n.hashType.getD 0} fo={n.fanout.getD 0} mode={(modeOf n).toNat} ext={(extendedMode n).toNat} " ++
   s!"mtime={showTime "." (modTime n)} fsize={fileSize n}"
 
@@ -90,6 +90,34 @@ def step (n : FSNode) (line : String) : FSNode × String :=
     match parseData d, fo.toNat?, ht.toNat?, bv m, parseTime a b with
     | some d, some fo, some ht, some m, some t => loadBytes n (hamtShardDataWithStat d fo ht m t)
     | _, _, _, _, _ => (n, "bad-op")
+  | ["filepb0", d, total] =>
+    match parseData d, total.toNat? with
+    | some d, some total => loadBytes n (filePBDataWithStat d total 0 Time.zero)
+    | _, _ => (n, "bad-op")
+  | ["folderpb0"] => loadBytes n (folderPBDataWithStat 0 Time.zero)
+  | ["hamt0", d, fo, ht] =>
+    match parseData d, fo.toNat?, ht.toNat? with
+    | some d, some fo, some ht => loadBytes n (hamtShardDataWithStat d fo ht 0 Time.zero)
+    | _, _, _ => (n, "bad-op")
+  | ["load", h] => match unhex h with
+    | none => (n, "bad-op")
+    | some b => match decode b with
+      | none => (n, "err")
+      | some m => (m, showNode m)
+  | ["meta", d, sz] =>
+    match parseData d, sz.toNat? with
+    | some d, some sz =>
+      let b := bytesForMetadata (d.getD []) sz
+      match metadataFromBytes b with
+      | some mime => (n, s!"{hex b} mime={hex mime}")
+      | none => (n, "err")
+    | _, _ => (n, "bad-op")
+  | ["metadec", h] => match unhex h with
+    | none => (n, "bad-op")
+    | some b => match metadataFromBytes b with
+      | none => (n, "err")
+      | some mime => (n, s!"mime={hex mime}")
+  | ["unwrap"] => (n, showData n.data)
   | ["mode"] => (n, toString (modeOf n).toNat)
   | ["ext"] => (n, toString (extendedMode n).toNat)
   | ["mtime"] => (n, showTime " " (modTime n))
